@@ -97,7 +97,7 @@ def expected_fraction(extras):
 @st.composite
 def case_st(draw, shapes):
     sc = draw(scen.scenario_st(shapes, measure="none",
-                               weight_kinds=("none", "int", "dyadic")))
+                               weight_kinds=("none", "int", "dyadic", "tenths")))
     sc["query"]["extras"] = draw(filter_block_st())
     tx, inforce = draw(xforms.slice_insertions_st(sc, where="either", max_ins=3,
                                                   allow_malformed=False))
